@@ -138,6 +138,24 @@ func c15Build(seed int64) *c15Scenario {
 		}
 		sc.desc = append(sc.desc, fmt.Sprintf("%s:%s<-%v", name, keyLabel(k), ls))
 	}
+	// cache operations between labelling and invalidation do not touch the index: labels of rewritten keys still apply
+	if rng.Intn(3) == 0 {
+		bi := rng.Intn(nBack)
+		switch rng.Intn(3) {
+		case 0:
+			sc.backends[bi].DeleteAll(bg)
+		case 1:
+			sc.backends[bi].ExpireAll(bg)
+		default:
+			sc.backends[bi].Delete(bg, clone(sc.keys[rng.Intn(len(sc.keys))]))
+		}
+		for ki, k := range sc.keys {
+			if rng.Intn(2) == 0 {
+				sc.backends[bi].Write(bg, clone(k), fmt.Sprintf("v2/b%d/k%d", bi, ki))
+			}
+		}
+		sc.desc = append(sc.desc, fmt.Sprintf("backend %d emptied/expired and partly rewritten after labelling", bi))
+	}
 	// labels to invalidate: seeded subset, seeded order, possibly with a repeated or unknown label
 	rng.Shuffle(len(allLabels), func(i, j int) { allLabels[i], allLabels[j] = allLabels[j], allLabels[i] })
 	sc.invLabels = append([]string{}, allLabels[:1+rng.Intn(len(allLabels))]...)
